@@ -6,8 +6,13 @@ import Driver.Codec
 
 Grammar of a scenario line (shared with `go/vcorr/mg.go`):
 
-    run <target> [/ <target>]         target = T<0|1> P<probe flags|-> <attempt>*
-    attempt = M | D | O | S | R<msgs><end> [+<k|x><m|d|b|j>[A]]
+    run|runc <target> [/ <target>]    target = T<0..3> P<probe flags|-> <attempt>*
+    attempt = M | D | O | S | R<msgs><end> [+<k|x><m|d|s|b|j>[A]]
+
+`T` digit: bit 0 = receive timeout, bit 1 = two next hops (the first one tried fails in even attempts: no transition
+of the model, `createConn`'s loop is inside `Pc.dial`).  `runc` = the same scenario with the real
+`connection.Manager` underneath: the per-target observations are the same, followed by what must be
+left in that manager once every target is removed (` # cm=0 open=0`).
 -/
 namespace Driver.MG
 open Gnmi Gnmi.Manager Gnmi.Session Driver
@@ -55,6 +60,7 @@ def parseInj (s : String) : Option Inj :=
     let pos : Option InjAt := match w with
       | ['m'] => some .lookup
       | ['d'] => some .dial
+      | ['s'] => some .dialOk
       | ['b'] => some .backoff
       | [] => none
       | 'c' :: ds =>
@@ -70,6 +76,8 @@ def parseAttempt (tok : String) : Option SAttempt :=
   | [b, i] => do
     let a ← parseBody b
     let inj ← parseInj i
+    -- `s`: the dial succeeds although cancelled meanwhile: only for attempts whose dial succeeds
+    if inj.pos = InjAt.dialOk ∧ (a = .metaErr ∨ a = .dialFail) then none else
     pure { a := a, inj := some inj }
   | _ => none
 
@@ -79,7 +87,7 @@ def parseTarget (toks : List String) : Option TargetSpec :=
     match t.toList, p.toList with
     | ['T', b], 'P' :: flags => do
       let script ← rest.mapM parseAttempt
-      pure { rt := b = '1', probes := flags.filter (· ≠ '-'), script := script }
+      pure { rt := b = '1' || b = '3', probes := flags.filter (· ≠ '-'), script := script }
     | _, _ => none
   | _ => none
 
@@ -107,26 +115,35 @@ def renderObs (o : TargetObs) (specCol : Bool) : String :=
   let rets := if o.racy then "?" else String.ofList (o.rets.map fun b => if b then 'o' else 'e')
   -- the model's own trace is run through the discipline automaton; the spec demands acceptance
   let acc := if specCol then true else decide (Accepts (o.pre ++ o.drain))
-  "tr=" ++ tr ++ " ret=" ++ rets ++ " acc=" ++ b01 acc ++ " quiet=1"
+  -- the connection ledger: the model's own counts; the spec demands that nothing is leaked / released twice
+  let acq := if o.racy then "?" else toString o.acq
+  let leak := if specCol then 0 else o.leak
+  let tw := if specCol then 0 else o.twice
+  "tr=" ++ tr ++ " ret=" ++ rets ++ " acc=" ++ b01 acc ++ " quiet=1" ++
+    " acq=" ++ acq ++ " leak=" ++ toString leak ++ " twice=" ++ toString tw ++ " uad=0"
+
+def runLine (s : St) (rest : List String) (suffix : String) : St × String × String :=
+  match (splitTargets rest).mapM parseTarget with
+  | some ts =>
+    let obs := runScenario ts
+    let sfx := if obs.any (·.stuck) then "" else suffix
+    (s, " / ".intercalate (obs.map (renderObs · false)) ++ sfx, " / ".intercalate (obs.map (renderObs · true)) ++ sfx)
+  | none => (s, "bad-op", "bad-op")
 
 def step (s : St) (args : List String) : St × String × String :=
   match args with
   | ["new"] => (s, "ok", "ok")
-  | ["end"] => (s, "late=0 acc=1", "late=0 acc=1")
+  | ["end"] => (s, "late=0 acc=1 leak=0", "late=0 acc=1 leak=0")
   -- Remove in flight vs a concurrent Add of the same name: judged by the Go-side monitors only (the
   -- session discipline automaton over the whole callback trace of the name)
-  | "readd" :: _ => (s, "acc=1 done=1", "acc=1 done=1")
+  | "readd" :: _ => (s, "acc=1 done=1 leak=0 twice=0", "acc=1 done=1 leak=0 twice=0")
   -- retries are paced by the backoff, also after a forced reconnect (the timer's duration is outside the LTS:
   -- a monitor on the code); anything but the three scenarios is a bad op on both sides
   | ["pace", how] =>
-      if how == "plain" || how == "reconnect" || how == "rt" then (s, "paced=1 done=1", "paced=1 done=1")
+      if how == "plain" || how == "reconnect" || how == "rt" then (s, "paced=1 done=1 leak=0 twice=0", "paced=1 done=1 leak=0 twice=0")
       else (s, "bad-op", "bad-op")
-  | "run" :: rest =>
-    match (splitTargets rest).mapM parseTarget with
-    | some ts =>
-      let obs := runScenario ts
-      (s, " / ".intercalate (obs.map (renderObs · false)), " / ".intercalate (obs.map (renderObs · true)))
-    | none => (s, "bad-op", "bad-op")
+  | "run" :: rest => runLine s rest ""
+  | "runc" :: rest => runLine s rest " # cm=0 open=0"
   | _ => (s, "bad-op", "bad-op")
 
 end Driver.MG
